@@ -273,5 +273,10 @@ FIXED = [
     # comprehensions have their own scope (third seeding round)
     ("comprehension-variable-used-afterwards", 'from nada_dsl import *\n\ndef nada_main():\n    p = Party(name="P")\n    xs = [SecretInteger(Input(name="x" + str(i), party=p)) for i in range(3)]\n    last = str(i)\n    return [Output(sum(xs), "total_" + last, p)]\n'),
     ("comprehension-variable-shadows-a-name", 'from nada_dsl import *\n\ndef nada_main():\n    p = Party(name="P")\n    v = "a"\n    xs = [SecretInteger(Input(name="x" + str(v), party=p)) for v in range(2)]\n    w = v\n    z = w + "b"\n    return [Output(sum(xs), "total", p)]\n'),
+    # range() with more than one argument (fifth seeding round): every argument must be a plain int
+    ("range-with-a-nada-bound", 'from nada_dsl import *\n\ndef nada_main():\n    p = Party(name="P")\n    s = SecretInteger(Input(name="s", party=p))\n    n = Integer(3)\n    t = s\n    for i in range(1, n):\n        t = t + s\n    return [Output(t, "o", p)]\n'),
+    ("range-with-a-secret-bound", 'from nada_dsl import *\n\ndef nada_main():\n    p = Party(name="P")\n    s = SecretInteger(Input(name="s", party=p))\n    t = s\n    for i in range(0, s):\n        t = t + s\n    return [Output(t, "o", p)]\n'),
+    ("range-with-a-string-bound", 'from nada_dsl import *\n\ndef nada_main():\n    p = Party(name="P")\n    s = SecretInteger(Input(name="s", party=p))\n    t = s\n    for i in range(0, "3"):\n        t = t + s\n    return [Output(t, "o", p)]\n'),
+    ("range-with-a-nada-step", 'from nada_dsl import *\n\ndef nada_main():\n    p = Party(name="P")\n    s = SecretInteger(Input(name="s", party=p))\n    k = Integer(2)\n    xs = [s for i in range(0, 4, k)]\n    return [Output(sum(xs), "o", p)]\n'),
     ("typed-constructor-of-int", 'from nada_dsl import *\n\ndef nada_main():\n    p = Party(name="P")\n    s = SecretInteger(Input(name="s", party=p))\n    n = 3\n    a = PublicInteger(10)\n    b = SecretInteger(n + 1)\n    return [Output(s, "o", p)]\n'),
 ]
